@@ -225,7 +225,7 @@ class C01(core.Check):
         fn, text = isamod.render_isa(obj, fmt)
         src = ''.join(l['text'] + '\n' for l in lines)
         return {'runs': [{'files': {fn: text, 'p.asm': src}, 'argv': ['compile', '-c', fn, 'p.asm', '-o', 'out.bin'],
-                          'probes': ['steps', 'fields', 'sizes'], 'step_limit': 3_000_000}],
+                          'probes': ['steps', 'fields', 'sizes', 'contracts'], 'step_limit': 3_000_000}],
                 'meta': {'lines': lines, 'fmt': fmt}, 'tags': [tag]}
 
     def cases(self, tier, seed):
@@ -289,6 +289,9 @@ class C01(core.Check):
         probe = ((o.get('probes') or {}).get('sizes') or {})
         if probe.get('mismatch'):
             vs.append(core.violated('reserved!=emitted', {'mismatch': probe['mismatch'][:3]}))
+        cb = ((o.get('probes') or {}).get('contracts') or {}).get('broken')
+        if cb:
+            vs.append(core.violated('contract-broken/append_bits-postcondition', {'v': cb[:3]}))
         # supporting monitor: the append_bits trace of every instruction must be the model's field list
         tr = ((o.get('probes') or {}).get('fields') or {}).get('instructions')
         if tr is not None:
